@@ -303,6 +303,11 @@ fn run(ctx: &Ctx) {
         3 => Just(b'\n'),
         3 => b'a'..=b'z',
         2 => any::<u8>(),
+        // neighbours and bit-flipped relatives of the special bytes (SWAR tricks get these wrong)
+        2 => proptest::sample::select(vec![
+            0x08u8, 0x0b, 0x0c, 0x0e, 0x1f, 0x21, 0x28, 0x29, 0x2a, 0x49, 0x60, 0x89, 0x8a, 0x8d, 0xa0, 0xa9, 0xc9, 0xe0, 0x00, 0x01, 0x7f,
+            0x80, 0xff,
+        ]),
     ];
     let strat = (
         proptest::collection::vec(byte, 0..300),
